@@ -45,6 +45,8 @@ class ForeignGen:
         loc = r.choice(["e1", "e2", "a1", "ag1", "x", "y.z", "b/c", "n-1"]) + str(r.randint(0, 3))
         if default and r.random() < 0.2:
             return loc
+        if r.random() < 0.04:
+            return r.choice(prefixes) + ":"        # a qualified name with an empty local part: the namespace URI itself
         return r.choice(prefixes) + ":" + loc
 
     def value(self, prefixes, default):
